@@ -322,7 +322,7 @@ const smtHeader = "(set-option :produce-models true)\n(set-logic ALL)\n"
 
 const smtPrelude = `(define-fun go_div ((a Int) (b Int)) Int (ite (>= a 0) (ite (> b 0) (div a b) (- (div a (- b)))) (ite (> b 0) (- (div (- a) b)) (div (- a) (- b)))))
 (define-fun go_rem ((a Int) (b Int)) Int (- a (* b (go_div a b))))
-(define-fun wf_slice ((s Slice)) Bool (and (>= (sl_len s) 0) (>= (sl_off s) 0) (>= (sl_cap s) (sl_len s)) (>= (sl_arr s) 0) (=> (= (sl_arr s) 0) (and (= (sl_len s) 0) (= (sl_cap s) 0) (= (sl_off s) 0)))))
+(define-fun wf_slice ((s Slice)) Bool (and (>= (sl_len s) 0) (<= (sl_cap s) 1152921504606846976) (>= (sl_off s) 0) (>= (sl_cap s) (sl_len s)) (>= (sl_arr s) 0) (=> (= (sl_arr s) 0) (and (= (sl_len s) 0) (= (sl_cap s) 0) (= (sl_off s) 0)))))
 (define-fun wf_iface ((i Iface)) Bool (and (>= (if_tag i) 0) (=> (= (if_tag i) 0) (= (if_val i) 0))))
 (declare-const loc_local Int)
 (define-fun wf_time ((t Time)) Bool (and (>= (t_ns t) time_zero_ns) (<= (t_ns t) 253402300799999999999)))
@@ -472,7 +472,7 @@ func (e *Engine) verifyLemma(l *Lemma) (res *FuncResult) {
 	g := r.evalBool(env, cl)
 	var b strings.Builder
 	for _, ln := range r.lines {
-		b.WriteString(ln + "\n")
+		b.WriteString(ln.text + "\n")
 	}
 	fmt.Fprintf(&b, "(assert (not %s))\n(check-sat)\n", g.S)
 	pkgName := "lib"
